@@ -12,7 +12,7 @@
    / all registered conditions must hold after the steps start..start+K-1 according to the property
    text; [hist next K h] = h extended by K recorded steps; [steps] = K iterations of the loop body. *)
 From Coq Require Import String Reals List Bool Arith.
-Require Import Kawin.Common.Ops Kawin.Common.Vec Kawin.C19.Model Kawin.C19.Proofs.
+Require Import Kawin.Common.Ops Kawin.Common.Vec Kawin.C19.Model Kawin.C19.Proofs Kawin.C19.Bridge.
 Import ListNotations.
 Open Scope R_scope.
 
@@ -174,3 +174,19 @@ Theorem C19_ttp_reported_times nm init nextT fuel maxTime es Temp vals es' :
        (0 < K)%nat /\ es <> [] /\ forall e, In e es -> first_met nm (e_cond Rops e) H 1 K <> None).
 Proof. exact (ttp_reported_times nm init nextT fuel maxTime es Temp vals es'). Qed.
 Print Assumptions C19_ttp_reported_times.
+
+(* ---- the executed instance is the proved instance ------------------------------------------------- *)
+(* What the correspondence check evaluates with vm_compute on exact rationals is, through Q2R, the value
+   of the real-number model these theorems are about (no side condition: the interpolation divides by a
+   non-zero number whenever that branch is taken). *)
+Theorem C19_Q_test_condition_is_R nm c h l :
+  test_cond Rops nm (condQ2R c) (map rowQ2R h) (latchQ2R l) = option_map latchQ2R (test_cond Qops nm c h l).
+Proof. exact (test_cond_hom nm c h l). Qed.
+Print Assumptions C19_Q_test_condition_is_R.
+
+Theorem C19_Q_solve_is_R nm nextQ nextR (next_hom : forall h, nextR (map rowQ2R h) = rowQ2R (nextQ h))
+  fuel simTime h es :
+  solve Rops nm nextR fuel (Q2R simTime) (map rowQ2R h) (map entryQ2R es)
+  = outcomeQ2R (solve Qops nm nextQ fuel simTime h es).
+Proof. exact (solve_hom nm nextQ nextR next_hom fuel simTime h es). Qed.
+Print Assumptions C19_Q_solve_is_R.
